@@ -122,7 +122,7 @@ theorem C16_site_render_ghost_line (g : GhostData) (ctx : ImplContext) (m : Memb
     ∃ ts, renderGhostLine g ctx = .ok ts := by
   unfold renderGhostLine
   simp only [hm, GhostIdent.getIdent]
-  cases hk : ctx.kind <;> cases m <;> simp_all [Kind.isFrom, Kind.cls, Kind.isIntoExisting, bind, Except.bind, pure, Except.pure]
+  cases hk : ctx.kind <;> cases m <;> cases hp : ctx.hasPostInit <;> simp_all [Kind.isFrom, Kind.cls, Kind.isIntoExisting, bind, Except.bind, pure, Except.pure]
 
 /-- C16-2 (the three `err_ty.unwrap()` sites): not reached when the instruction carries an error type -/
 theorem C16_site_err_ty (ctx : ImplContext) (t : TypePath) (h : ctx.structAttr.errTy = some t) :
